@@ -9,6 +9,10 @@
 (* Frame: an operation on one output or its controllers never changes the      *)
 (* control state of the other output, nor of modules of other nodes that live  *)
 (* in the same process (foreign).                                              *)
+(* Whether the request that triggered a hand-over is finally accepted or the   *)
+(* driver raises afterwards (a SECoP error or anything else, e.g. when the     *)
+(* hardware write of the target fails) is irrelevant for the control state:    *)
+(* the binding lets the drivers raise after the control call in some steps.    *)
 EXTENDS Naturals, FiniteSets, TLC
 
 CONSTANTS Layouts     \* subset of {10, 20, 30, 11, 21, 22}: code 10 * n1 + n2
